@@ -8,10 +8,15 @@ the TPC-DS scripts) and (b) generated statements and scripts (`gensql` + the exp
        names of the nodes of `table_lineage_graph` / `column_lineage_graph`, the edges are their edges, every edge endpoint
        and every parent reference is the id of an exported entry, there is one parent entry per distinct owner, ids are
        unique, the summary lists the sorted role sets each once;
-  (ii) for generated inputs, compared EXACTLY with the Lean model's export (`exportsql`): same entries, same order — after the
-       model's view has been permuted to the order in which networkx iterated the implementation's view (a subgraph view
-       iterates a Python set when it keeps fewer than half of the nodes; io.py's output depends on that order and nothing
-       else), same `e{i}` edge ids, same summary text.
+  (ii) compared EXACTLY with the Lean model: the implementation's own combined graph (`implgraph.graph_json`) is handed to the
+       driver (`exportfull`), the model computes the two views, both exports, the role lists and the summary text from it, and
+       the lists must be identical — same entries, same order, same `e{i}` edge ids, same text — after the model's view has been
+       permuted to the order in which networkx iterated the implementation's view (a subgraph view iterates a Python set when
+       it keeps fewer than half of the nodes; io.py's output depends on that order and on nothing else).  This ties
+       `Model/Export.lean` to io.py / runner.py / the holder views on EVERY real result, corpus included;
+  (iii) for generated inputs additionally end to end (`exportsql`: typed AST -> walk -> assembler -> export).  With (ii) exact, a
+       difference here lies in how the walk models the analysis of that statement — the subject of the C01/C02 correspondences —
+       and is reported in the evidence (`end_to_end_differences`), not as a failure of this property.
 A sample of inputs also goes through `POST /lineage` of the WSGI app (`sqllineage.drawing.app`): same lists.
 
 Known finding D24: duplicate node ids whenever two distinct nodes/owners of the view print the same name.  The class predicate
@@ -26,6 +31,7 @@ import warnings
 
 import corpus18
 import gensql
+import implgraph
 import sqlcheck
 import sqlimpl
 from common import Check, Driver, Infra, canon_json, leanchecker, log
@@ -71,6 +77,7 @@ def _views(lr):
     out["roles"] = {"source": sorted(str(t) for t in h.source_tables), "target": sorted(str(t) for t in h.target_tables),
                     "intermediate": sorted(str(t) for t in h.intermediate_tables)}
     out["nstmts"] = nstmts
+    out["graph"] = implgraph.graph_json(h.graph)     # the combined graph itself, for the direct correspondence (`exportfull`)
     return out
 
 
@@ -316,22 +323,23 @@ def _norm(x):
     return x
 
 
-def hints_of(r):
-    """iteration orders of the implementation's views, as the driver wants them"""
+def hints_of(r, norm=True):
+    """iteration orders of the implementation's views, as the driver wants them (`norm`: anonymous subquery names masked, for the
+    end-to-end comparison where the model cannot know the hash)"""
     out = {}
     for lvl in ("table", "column"):
-        D = _norm(_data(r[lvl]))
+        D = _norm(_data(r[lvl])) if norm else _data(r[lvl])
         nodes = [d.get("id") for d in D if "source" not in d and (lvl == "table" or "parent" in d)]
         edges = [[d.get("source"), d.get("target")] for d in D if "source" in d]
         out[lvl] = {"nodes": nodes, "edges": edges}
     return out
 
 
-def hint_variants(r, limit=36):
+def hint_variants(r, limit=36, norm=True):
     """when several nodes print alike (D24; anonymous subqueries after masking their hash) the printed order does not say which
     model node is which: enumerate the assignments (each occurrence takes the k-th still unused model node of that name)"""
     import itertools
-    base = hints_of(r)
+    base = hints_of(r, norm)
     per_level = {}
     for lvl in ("table", "column"):
         nodes = base[lvl]["nodes"]
@@ -387,6 +395,49 @@ def compare(r, a, full=True):
     if _norm(r["summary"]) != o["summary"]:
         diffs.append(("summary", None))
     return diffs
+
+
+def full_request(r, order=None):
+    """the model's export of the implementation's OWN combined graph"""
+    return {"cmd": "exportfull", "graph": r["views"]["graph"], "nstmts": r["views"]["nstmts"],
+            "order": order if order is not None else hints_of(r, norm=False)}
+
+
+def compare_full(r, a):
+    o = a.get("out")
+    if not isinstance(o, dict):
+        raise Infra("model driver error: " + str(a.get("error")))
+    diffs = []
+    if r["table"] != o["table"]["elems"]:
+        diffs.append("table")
+    if r["column"] != o["column"]["elems"]:
+        diffs.append("column")
+    if r["summary"] != o["summary"]:
+        diffs.append("summary")
+    return diffs
+
+
+def full_diffs(drv, r, a=None):
+    """differences between io.py / __str__ and the model on the implementation's own graph; when several nodes print alike the
+    assignment of model nodes to the printed order is enumerated"""
+    a = a or drv.ask1(full_request(r))
+    d = compare_full(r, a)
+    if not d:
+        return [], a
+    vs = hint_variants(r, norm=False)
+    if len(vs) > 1:
+        for a2 in drv.ask([full_request(r, v) for v in vs]):
+            if not compare_full(r, a2):
+                return [], a2
+    return d, a
+
+
+def full_record(case, r, diffs, a):
+    o = a.get("out", {})
+    return {"kind": "export-on-implementation-graph", "sql": case["sql"], "dialect": case.get("dialect", "ansi"),
+            "metadata": case.get("metadata"), "silent": bool(case.get("silent")), "via": case.get("via"), "origin": case.get("origin"),
+            "differs_in": diffs,
+            "impl": {k: r[k] for k in diffs}, "model": {k: (o[k]["elems"] if k in ("table", "column") else o.get(k)) for k in diffs}}
 
 
 # =============================================================================================== generators
@@ -536,7 +587,7 @@ def shrink_text_case(case, pred):
     return dict(case, sql=";\n".join(s.rstrip().rstrip(";") for s in cur)) if len(cur) < len(parts) else case
 
 
-def part_corpus(chk, st, wsgi_every):
+def part_corpus(chk, drv, st, wsgi_every):
     cases, hstats = corpus18.corpus()
     if not cases:
         raise Infra("the corpus harvester found no SQL in the repository's tests")
@@ -553,8 +604,11 @@ def part_corpus(chk, st, wsgi_every):
     res = sqlimpl.pool().map(impl_export, jobs, chunksize=4)
     if not any(is_result(r) for r in res):
         raise Infra("no corpus script could be analysed: " + str(res[0])[:300])
+    # the model's export of the implementation's own graph, for every result
+    fidx = [i for i, r in enumerate(res) if exported(r)]
+    fans = dict(zip(fidx, drv.ask([full_request(res[i]) for i in fidx], chunk=200)))
     first = None
-    for c, r in zip(jobs, res):
+    for ji, (c, r) in enumerate(zip(jobs, res)):
         tag = "corpus-wsgi" if c.get("via") else "corpus"
         if not is_result(r):
             st.c[f"{tag}:" + ("rejected" if "rejected" in r else "error:" + str(r.get("error")))] += 1
@@ -568,15 +622,23 @@ def part_corpus(chk, st, wsgi_every):
             st.c["note:node-id-equals-edge-id"] += 1
         if d24:
             st.c["D24-class"] += 1
-            if chk.finding("D24"):
-                chk.known("D24")
-            else:
+            if not chk.finding("D24"):
                 fails = fails + [("ids_unique", d24)]
         if fails:
             st.c["oracle-fails"] += 1
             if first is None:
                 first = (c, fails)
-        elif st.c[tag] % 150 == 1 and exported(r):
+            continue
+        fd, fa = full_diffs(drv, r, fans[ji])
+        if fd:
+            st.c["impl!=model(on the implementation's graph)"] += 1
+            if len(chk.stale) < 20:
+                chk.stale.append(full_record(c, r, fd, fa))
+        else:
+            st.c["agree(on the implementation's graph)"] += 1
+        if d24 and chk.finding("D24") and not fd:
+            chk.known("D24")
+        if st.c[tag] % 150 == 1 and exported(r):
             chk.sample({"origin": c["origin"], "dialect": c["dialect"], "via": c.get("via", "runner"),
                         "table_elems": len(r["table"]), "column_elems": len(r["column"]), "summary": r["summary"][:160]})
     if first is not None:
@@ -676,7 +738,9 @@ def part_generated(chk, drv, st, dialects, wsgi_every):
             reqs.append(model_request(cases[ci][1], r, cases[ci][2]))
             idx.append(ji)
     ans = dict(zip(idx, drv.ask(reqs)))
-    first_fail = first_diff = None
+    fans = dict(zip(idx, drv.ask([full_request(res[ji]) for ji in idx], chunk=400)))
+    first_fail = None
+    walk_diffs = []
     for ji, ((ci, d, via), r) in enumerate(zip(jobs, res)):
         name, ss, md = cases[ci]
         kind = name.split("/")[0].split("-")[0]
@@ -719,24 +783,35 @@ def part_generated(chk, drv, st, dialects, wsgi_every):
             st.c["note:node-id-equals-edge-id"] += 1
         if d24:
             st.c["D24-class"] += 1
-            if chk.finding("D24") and not diffs:
-                chk.known("D24")
-            elif not chk.finding("D24"):
+            if not chk.finding("D24"):
                 fails = fails + [("ids_unique", d24)]
         if fails:
             st.c["oracle-fails"] += 1
             if first_fail is None:
                 first_fail = (ci, d, via, fails)
-        elif diffs:
-            st.c["impl!=model"] += 1
-            st.c["impl!=model:" + "+".join(x[0] for x in diffs)] += 1
-            if first_diff is None:
-                first_diff = (ci, d, via, diffs)
+            continue
+        # (1) the export model on the implementation's own graph: must be exact
+        fd, fa = full_diffs(drv, r, fans[ji])
+        if fd:
+            st.c["impl!=model(on the implementation's graph)"] += 1
+            if len(chk.stale) < 20:
+                chk.stale.append(full_record({"sql": rend[ci]["sql"], "dialect": d, "metadata": md, "via": via}, r, fd, fa))
+            continue
+        st.c["agree(on the implementation's graph)"] += 1
+        if d24 and chk.finding("D24"):
+            chk.known("D24")
+        # (2) end to end (typed AST -> walk -> assembler -> export): a difference here, with (1) exact, lies in how the walk
+        # models the ANALYSIS of this statement (the subject of the C01/C02 correspondences), not in the export
+        if diffs:
+            st.c["end-to-end differs (walk model, not the export)"] += 1
+            if len(walk_diffs) < 5:
+                walk_diffs.append({"sql": rend[ci]["sql"], "dialect": d, "differs_in": [x[0] for x in diffs]})
         else:
             st.c["agree"] += 1
             if st.c["agree"] % 400 == 1:
                 chk.sample({"sql": rend[ci]["sql"], "dialect": d, "via": via or "runner", "table": _norm(r["table"])[:4],
                             "column_elems": len(r["column"]), "summary": r["summary"][:120]})
+    chk.coverage["end_to_end_differences"] = walk_diffs
     if first_fail is not None:
         ci, d, via, fails = first_fail
         name, ss, md = cases[ci]
@@ -757,25 +832,6 @@ def part_generated(chk, drv, st, dialects, wsgi_every):
                "failed_checks": [[n, x] for n, x in (f2 or fails)[:6]]}
         chk.violation("the export / summary of a generated input is not faithful to the runner's own lineage graph: "
                       + ", ".join(sorted({f[0] for f in (f2 or fails)})), rec)
-    elif first_diff is not None:
-        ci, d, via, diffs = first_diff
-        name, ss, md = cases[ci]
-
-        def differs(cand_ss):
-            _, r2, d2, f2, _ = eval_generated(drv, cand_ss, md, d, via)
-            return bool(d2)
-        small = shrink_script(ss, differs)
-        sql, r2, d2, f2, _ = eval_generated(drv, small, md, d, via)
-        a = drv.ask1(model_request(small, r2 if exported(r2) else None, md))
-        rec = {"kind": "export-correspondence", "ast": small, "sql": sql, "dialect": d, "metadata": md, "via": via,
-               "differs_in": [x[0] for x in (d2 or diffs)],
-               "impl": {"table": _norm(r2.get("table")), "column": _norm(r2.get("column")), "summary": r2.get("summary")} if exported(r2) else r2,
-               "model": a.get("out")}
-        if f2:
-            chk.violation("the export of a generated input is not faithful to the runner's own lineage graph: "
-                          + ", ".join(sorted({f[0] for f in f2})), dict(rec, kind="sql-ast", failed_checks=[[n, x] for n, x in f2[:6]]))
-        else:
-            chk.stale.append(rec)
     return len(cases), len(jobs)
 
 
@@ -819,7 +875,7 @@ def _node_json(n):
     return _ds_json(n), ({"alias": n.alias} if isinstance(n, SubQuery) else None)
 
 
-def direct_request(g, compound):
+def handmade_request(g, compound):
     return {"cmd": "exportgraph", "compound": compound, "nodes": [list(_node_json(x)) for x in g.nodes],
             "edges": [[_node_json(u)[0], _node_json(v)[0]] for u, v in g.edges]}
 
@@ -901,7 +957,7 @@ def part_direct(chk, drv, st):
             g.add_edge(a, b)
         if len(cols) == 3:
             g.add_edge(cols[0], cols[2])
-        reqs.append(direct_request(g, True))
+        reqs.append(handmade_request(g, True))
         try:
             impls.append(to_cytoscape(g, compound=True))
         except Exception as e:
@@ -912,7 +968,7 @@ def part_direct(chk, drv, st):
         for x in perm:
             g.add_node(x)
         g.add_edge(perm[0], perm[1]); g.add_edge(perm[0], perm[2]); g.add_edge(perm[2], perm[2])
-        reqs.append(direct_request(g, False))
+        reqs.append(handmade_request(g, False))
         try:
             impls.append(to_cytoscape(g))
         except Exception as e:
@@ -980,7 +1036,7 @@ def run(chk):
         replay_finding(chk, drv, st)
         n_direct = part_direct(chk, drv, st)
         t1 = time.time()
-        hstats, n_corpus = part_corpus(chk, st, wsgi_every=6 if thorough else 12)
+        hstats, n_corpus = part_corpus(chk, drv, st, wsgi_every=6 if thorough else 12)
         t2 = time.time()
         n_cases, n_jobs = part_generated(chk, drv, st, dialects, wsgi_every=10 if thorough else 20)
         log(f"[c18] direct {t1 - t0:.1f}s ({n_direct} graphs)  corpus {t2 - t1:.1f}s ({n_corpus} runs)  "
@@ -990,12 +1046,13 @@ def run(chk):
     chk.coverage.update({"corpus": hstats, "corpus_runs": n_corpus, "generated_inputs": n_cases, "generated_runs": n_jobs,
                          "direct_graphs": n_direct, "dialects": dialects, "distribution": st.as_dict(), "exhaustive": False})
     chk.assumptions += [
-        "text -> tree (sqlfluff / sqlparse grammars) is not modelled; the corpus is checked by the implementation-only oracle, "
-        "generated inputs additionally against the Lean model",
+        "text -> tree (sqlfluff / sqlparse grammars) and, for the corpus, the analysis itself are not modelled here: the export model "
+        "is run on the implementation's own combined graph (exact comparison on every result); generated inputs are additionally "
+        "compared end to end, differences there being attributed to the walk model (C01/C02) when the direct comparison is exact",
         "networkx iteration orders of subgraph views (set order below half of the nodes) are taken from the implementation's "
         "output and handed to the model as a permutation; theorems hold for every order",
-        "statements with a subquery inside a select item: column-level export compared by the oracle only "
-        "(`_get_column_from_subquery` is not modelled); table level and summary are compared",
+        "end to end only: statements with a subquery inside a select item (`_get_column_from_subquery` is not modelled) and CREATE "
+        "TABLE column lists under dialects with another tree shape are compared on the summary alone",
         "the statement holders produced by the model's walk satisfy EdgesWF/NodesNodup: checked at run time on every generated "
         "case (driver field `wf`), proved preserved by every graph operation and by the assembler",
     ]
@@ -1006,8 +1063,9 @@ def run(chk):
              "export-specific shapes (owners printing alike, shared owners, bare columns named like owners, CTEs, DDL/drop/rename "
              "scripts, metadata) + gensql.enumerate_shapes (a third / a sixth, rotating) + seeded random statements and 2-4 statement "
              "scripts, under the listed dialects (quick: ansi + one other dialect per input, rotating); a share of all inputs goes through POST /lineage; direct = io.to_cytoscape on "
-             "hand-made graphs in every node order. Each result: structural oracle on the implementation alone; generated/direct: "
-             "exact comparison with the model's export. non-trivial = the export has at least one edge; distinct by (route, SQL, "
+             "hand-made graphs in every node order. Each result: structural oracle on the implementation alone + exact "
+             "comparison of both exports and the summary with the model run on the implementation's own graph; generated inputs also "
+             "end to end; hand-made graphs: exact comparison. non-trivial = the export has at least one edge; distinct by (route, SQL, "
              "dialect, metadata)",
         trusted_base=["Lean 4.33 kernel", "axioms: propext, Classical.choice, Quot.sound", "harness/c18.py + corpus18.py + sqlimpl.py",
                       "networkx DiGraph / subgraph views (modelled, not verified)"])
@@ -1038,11 +1096,25 @@ def replay(chk, obj):
             out = to_cytoscape(g, compound=q["compound"]) if q["compound"] else to_cytoscape(g)
         except Exception as e:
             out = [{"data": {"raised": type(e).__name__}}]
-        a = Driver().ask1(direct_request(g, q["compound"]))
+        a = Driver().ask1(handmade_request(g, q["compound"]))
         bad = direct_bad(q, out)
         print(json.dumps({"graph": q, "export": out, "model": a.get("elems"), "ids_or_references_wrong": bad,
                           "differs_from_model": a.get("elems") != out}, indent=1)[:6000])
         return 1 if (bad or a.get("elems") != out) else 0
+    if kind == "export-on-implementation-graph":
+        case = {"sql": r["sql"], "dialect": r.get("dialect", "ansi"), "metadata": r.get("metadata"), "silent": r.get("silent"),
+                "via": r.get("via")}
+        res = impl_export(case)
+        if not exported(res):
+            fails, _ = oracle(res) if is_result(res) else ([], [])
+            print(json.dumps({"sql": r["sql"], "result": res, "failed_checks": fails}, indent=1, default=str)[:3000])
+            return 1 if fails else 0
+        fails, d24 = oracle(res)
+        fd, fa = full_diffs(Driver(), res)
+        print(json.dumps({"sql": r["sql"], "dialect": case["dialect"], "differs_from_model_in": fd, "oracle_failures": fails,
+                          "impl": {k: res[k] for k in fd}, "model": {k: (fa["out"][k]["elems"] if k != "summary" else fa["out"][k]) for k in fd}},
+                         indent=1, default=str)[:6000])
+        return 1 if (fd or fails) else 0
     if kind == "export-correspondence":
         drv = Driver()
         sql, res, diffs, fails, d24 = eval_generated(drv, r["ast"], r.get("metadata"), r.get("dialect", "ansi"), r.get("via"))
